@@ -68,9 +68,22 @@ def compare(model, impl):
     return compare_one(model, impl["runs"][0])
 
 
+def unordered(lines):
+    """lines whose text starts with '(~' form unordered groups (enumeration order of a HashMap is unspecified)"""
+    out, group = [], []
+    for l in lines:
+        if l.startswith("(~"):
+            group.append(l)
+        else:
+            out += sorted(group)
+            group = []
+            out.append(l)
+    return out + sorted(group)
+
+
 def compare_one(model, run):
-    got_out = [vlib.norm_addr(s) for s in run.get("out", [])]
-    if got_out != list(model["out"]):
+    got_out = unordered([vlib.norm_addr(s) for s in run.get("out", [])])
+    if got_out != unordered(list(model["out"])):
         return "printed output differs: spec %r impl %r" % (model["out"], got_out)
     if bool(run["ok"]) != bool(model["result"]["ok"]):
         return "outcome differs: spec %r impl %r" % (model["result"], {k: run.get(k) for k in ("ok", "kind", "messages")})
